@@ -2,10 +2,13 @@ use crate::gen::Robot;
 use crate::Prop;
 use serde_json::{json, Value};
 
+pub mod c01;
+pub mod c02;
 pub mod c03;
+pub mod ik;
 
 pub fn registry() -> Vec<Prop> {
-    vec![c03::prop()]
+    vec![c01::prop(), c02::prop(), c03::prop()]
 }
 
 pub fn child(_args: &[String]) -> i32 {
